@@ -209,7 +209,10 @@ func (in c09RandIn) inject(f func(en *probe.Entropy)) {
 
 var c09Random = probe.Define("C09", "exponents", func(t *rapid.T) c09RandIn {
 	in := c09RandIn{Group: rapid.IntRange(0, 1).Draw(t, "group")}
-	switch gen.Pick(t, "mode", 4, 2, 3) {
+	switch gen.Pick(t, "mode", 4, 2, 3, 1) {
+	case 3:
+		in.Mode = "reflection"
+		in.Stream = gen.Fill(t, "stream", rapid.IntRange(8, 64).Draw(t, "len"))
 	case 0:
 		in.Mode = "range"
 		in.Stream = gen.Fill(t, "stream", rapid.IntRange(0, 300).Draw(t, "len"))
@@ -297,6 +300,34 @@ var c09Random = probe.Define("C09", "exponents", func(t *rapid.T) c09RandIn {
 			return probe.Fail("a different random stream gives the same exponent")
 		}
 
+	case "reflection":
+		// the peer's value happens to equal the public value this side is about to compute (a peer echoing values, a loop-back
+		// test, two ends seeded alike): an ordinary in-domain peer value - the shared secret is g^(x*x)
+		x, err, _ := draw(in.Stream, 0)
+		if err != nil || x == nil {
+			return probe.Fail("GenerateRandomNumber: %v", err)
+		}
+		P := refPrime(in.Group)
+		n := ref.DHs[in.Group].Bits / 8
+		own := ref.LeftPad(ref.ModExp(bigTwo, x, P), n)
+		sa := newInfoSA(bridge.SuiteSel{DH: in.Group})
+		var pub, shared []byte
+		probe.WithEntropyOpts(probe.EntropyOpts{Stream: in.Stream, MaxRead: in.MaxRead}, func(*probe.Entropy) {
+			err = probe.Try(func() error {
+				var e error
+				pub, shared, e = security.CalculateDiffieHellmanMaterials(sa, own)
+				return e
+			})
+		})
+		if err != nil {
+			return probe.Fail("CalculateDiffieHellmanMaterials with a peer value equal to this side's own public value: %v", err)
+		}
+		if !bytes.Equal(pub, own) {
+			return probe.Fail("the same random stream gives another exponent inside CalculateDiffieHellmanMaterials than through GenerateRandomNumber (harness assumption) - or the public value is wrong")
+		}
+		if want := ref.LeftPad(ref.ModExp(new(big.Int).SetBytes(own), x, P), n); !bytes.Equal(shared, want) {
+			return probe.Fail("shared secret for a peer value equal to the own public value is not (g^x)^x mod p")
+		}
 	case "fault":
 		// the fault-free run tells how many reads there are; a failure at read k <= that many must surface
 		_, _, e0 := draw(in.Stream, 0)
@@ -395,6 +426,9 @@ var c09Table = probe.Define("C09", "prime-identity", func(t *rapid.T) c09In { pa
 
 func TestC09(t *testing.T) {
 	c := probe.NewCtx(t, "C09")
+	if c.Shard == 1 || !c.Thorough() {
+		endurance(c, "C09", "exponents", 70000)
+	}
 	if c.Shard == 0 {
 		for g := 0; g < 2; g++ {
 			P := refPrime(g)
